@@ -521,7 +521,7 @@ func (g *Gen) NextTxn(maxOps int) []Op {
 		}
 		trial := work.Clone()
 		err := trial.ApplyOp(&o)
-		if err == ErrC08 || err == ErrEmptyKeyCascade || (err != nil && strings.Contains(err.Error(), "cascade too deep")) {
+		if IsAvoid(err) {
 			continue
 		}
 		ops = append(ops, o)
